@@ -204,6 +204,8 @@ func bodyOf(r Req, variant int) []byte {
 	return nil
 }
 
+var badParamTurn int // rotates through the unparsable parameter forms (the recorder is sequential, so runs repeat exactly)
+
 func send(w *world, r Req, path string, body []byte, forceEmptyBody bool) map[string]interface{} {
 	var req *http.Request
 	if body != nil || forceEmptyBody {
@@ -222,6 +224,14 @@ func send(w *world, r Req, path string, body []byte, forceEmptyBody bool) map[st
 		} else {
 			req.Header.Set("Content-Type", "text/calendar")
 		}
+	case "objbadparam":
+		// the object's media type followed by parameters that cannot be parsed
+		t := "text/calendar"
+		if r.Srv == "card" {
+			t = "text/vcard"
+		}
+		req.Header.Set("Content-Type", t+[]string{"; charset", "; charset=", `; charset="utf-8`, ";;", "; =x"}[badParamTurn%5])
+		badParamTurn++
 	case "other":
 		req.Header.Set("Content-Type", "application/octet-stream")
 	case "malformed":
